@@ -216,25 +216,55 @@ def run(tier: str, replay=None) -> int:
             viol.append(payload)
     HX.preds_written.clear()
 
-    # ---- long-lived instances: the same behaviours again and again while the temporary counter grows
+    # ---- long-lived instances: the same behaviours again and again while the temporary counter grows.
+    # Each swept behaviour consumes two temporaries per compilation: with both parities of the starting counter every
+    # pair of consecutive numbers (…, 8/9, 9/10, …, 99/100, 100/101) is used by it once.
     sweep_steps = 0
+    stop = False
+    for si, src in enumerate(SWEEP[:3]):
+        for parity in (0, 1):
+            kind = ("cstmt", "insn")[(si + parity) % 2]
+            c = rc.compiler("READ_STATEMENTS", fresh=True)
+            hist = []
+            if parity:
+                r0 = do_call(c, kind, SWEEP[5])       # one temporary
+                hist.append((0, kind, SWEEP[5], r0[0]))
+            ref = fresh_output(kind, src)
+            for step in range(54 if tier == "quick" else 520):
+                if step % 9 == 8:
+                    f = FAIL_XFORM[(step // 9) % len(FAIL_XFORM)]
+                    hist.append((0, kind, f, do_call(c, kind, f)[0]))
+                real = do_call(c, kind, src)
+                sweep_steps += 1
+                evals += 1
+                if real[:2] != ref[:2] or real[2] != ref[2]:
+                    viol.append({"what": f"output of call {len(hist) + 1} on a long-lived instance differs from the output of a fresh instance (beyond a renaming of h_tmpN)",
+                                 "history": list(hist), "probe": [kind, src], "real": real, "fresh": ref,
+                                 "reproduce": "replay the listed calls in order on ONE fresh Compiler instance, then the probe call; compare with a fresh instance"})
+                    stop = True
+                    break
+                hist.append((0, kind, src, real[0]))
+            if stop:
+                break
+        if stop:
+            break
+    # mixed behaviours on one instance
     for kind in ("cstmt", "insn"):
         c = rc.compiler("READ_STATEMENTS", fresh=True)
         hist = []
-        for step in range(44 if tier == "quick" else 260):
+        for step in range(24 if tier == "quick" else 200):
             src = SWEEP[step % len(SWEEP)] if step % 7 != 6 else rng.choice(FAIL_XFORM)
             real = do_call(c, kind, src)
+            if src in SWEEP:
+                ref = fresh_output(kind, src)
+                sweep_steps += 1
+                evals += 1
+                if real[:2] != ref[:2] or real[2] != ref[2]:
+                    viol.append({"what": f"output of call {step + 1} on a long-lived instance differs from the output of a fresh instance (beyond a renaming of h_tmpN)",
+                                 "history": list(hist), "probe": [kind, src], "real": real, "fresh": ref,
+                                 "reproduce": "replay the listed calls in order on ONE fresh Compiler instance, then the probe call; compare with a fresh instance"})
+                    break
             hist.append((0, kind, src, real[0]))
-            if src not in SWEEP:
-                continue
-            ref = fresh_output(kind, src)
-            sweep_steps += 1
-            evals += 1
-            if real[:2] != ref[:2] or real[2] != ref[2]:
-                viol.append({"what": f"output of call {step + 1} on a long-lived instance differs from the output of a fresh instance (beyond a renaming of h_tmpN)",
-                             "history": hist[:-1], "probe": [kind, src], "real": real, "fresh": ref,
-                             "reproduce": "replay the listed calls in order on ONE fresh Compiler instance, then the probe call; compare with a fresh instance"})
-                break
     shapes.add(("sweep",))
 
     for k in known_for(PROP):
